@@ -4,12 +4,13 @@
 From Coq Require Import List NArith ZArith Bool Arith Lia.
 Import ListNotations.
 From JV Require Import Model.ScopeAst Model.ScopeIdTrack Model.ScopeGuards Model.ScopeFrameExec
-  Spec.ScopeSpecStmt Proofs.ScopeDictProofs Proofs.ScopeSymProofs.
+  Spec.ScopeSpecStmt Proofs.ScopeDictProofs Proofs.ScopeSymProofs Proofs.ScopeEraseProofs.
 
 Section Sim.
   Variable pynorm : name -> name.
   Variable priv : name -> bool.
   Variable d : list (name * value).
+  Variable Sr : symbols.                         (* the root frame's symbols (stored in top-level closures) *)
   Variable V0 : list name.                       (* the names of the whole program *)
   Hypothesis Hinj : forall x y, In x V0 -> In y V0 -> pynorm x = pynorm y -> x = y.
   Hypothesis Hloop0 : In n_loop V0.
@@ -326,12 +327,15 @@ Section Sim.
     i_wf : wfchain fs;
     i_rel : chain_rel (rref st) (s_scopes ss) fs env;
     i_heap : f_heap st = s_heap ss;
-    i_root : forall i, In i (f_chain st) -> i < length (f_below st);   (* static links point below *)
+    i_root : f_below st = [] /\ f_chain st = [];                 (* statements run in the root activation *)
     i_valid : forall i, In i env -> i < length (s_scopes ss);
     i_cvars : f_cvars st = nth 0 (s_scopes ss) [];
     i_exp : f_exported st = map fst (filter pub (nth 0 (s_scopes ss) []));
     i_nd0 : NoDup (keys (nth 0 (s_scopes ss) []))
   }.
+
+  Lemma Inv_chain_ok : forall fs st env ss, Inv fs st env ss -> forall i, In i (f_chain st) -> i < length (f_below st).
+  Proof. intros fs st env ss I i Hi. destruct (i_root _ _ _ _ I) as [_ Hc]. rewrite Hc in Hi. contradiction. Qed.
 
   Lemma flk_agree : forall S V P st env ss x,
     Inv ((S, V) :: P) st env ss -> In x V -> found (S :: syms_of P) x ->
@@ -665,8 +669,7 @@ Section Sim.
   Qed.
 
   (* ---------------------------------------------------------- sub-terms *)
-  Lemma core2_go : forall l, (fix go (l : list stmt) : bool := match l with [] => true | x :: r => core2_stmt x && go r end) l = core2_prog l.
-  Proof. induction l as [|x r IH]; cbn; [reflexivity|rewrite IH; reflexivity]. Qed.
+  Definition nilb (P : frames) : bool := match P with [] => true | _ => false end.
   Lemma frames_go : forall ch l, (fix go (chain : list symbols) (l : list stmt) : list (list symbols) :=
       match l with [] => [] | x :: r => frames_stmt oid chain x ++ go chain r end) ch l = frames_list oid ch l.
   Proof. intros ch l. induction l as [|x r IH]; cbn; [reflexivity|rewrite IH; reflexivity]. Qed.
@@ -674,7 +677,8 @@ Section Sim.
   Definition okocc (l : list stmt) : Prop := Forall (fun oc => occ_ok oc = true) (occs_l l).
 
   Record Pre (S : symbols) (V : list name) (P : frames) (l : list stmt) : Prop := mkPre {
-    p_core : core2_prog l = true;
+    p_core : core3_prog (nilb P) l = true;
+    p_root : P = [] -> S = Sr;
     p_names : incl (onames_l l) V;
     p_occ : okocc l;
     p_cov : covers_l (syms_of P) S l;
@@ -683,12 +687,12 @@ Section Sim.
 
   Lemma Pre_cons : forall S V P s r, Pre S V P (s :: r) -> Pre S V P [s] /\ Pre S V P r.
   Proof.
-    intros S V P s r [C N O Cv G]. cbn [core2_prog] in C. apply andb_true_iff in C. destruct C as [C1 C2].
+    intros S V P s r [C Rt N O Cv G]. cbn [core3_prog] in C. apply andb_true_iff in C. destruct C as [C1 C2].
     unfold onames_l in N. rewrite occs_l_cons, map_app in N. unfold okocc in O. rewrite occs_l_cons in O.
     apply Forall_app in O. destruct O as [O1 O2]. destruct Cv as [Cv1 Cv2].
     cbn [frames_list] in G. apply Forall_app in G. destruct G as [G1 G2].
     split; constructor; auto.
-    - cbn [core2_prog]. rewrite C1. reflexivity.
+    - cbn [core3_prog]. rewrite C1. reflexivity.
     - unfold onames_l. cbn [occs_l flat_map]. rewrite app_nil_r. intros x Hx. apply N. apply in_or_app. auto.
     - unfold okocc. cbn [occs_l flat_map]. rewrite app_nil_r. exact O1.
     - cbn. auto.
@@ -778,7 +782,7 @@ Section Sim.
     Variable f : nat.
     Hypothesis IHf : forall S V P fr st env ss l,
       Inv ((S, V) :: P) st env ss -> env_ok fr env -> Pre S V P l ->
-      R1 ((S, V) :: P) env (fx pynorm priv d f (S :: syms_of P) fr st l) (sx d f env ss l).
+      R1 ((S, V) :: P) env (fx pynorm priv d f (S :: syms_of P) fr st l) (sxi d Sr f env ss l).
 
     (* enter a frame built by mk_frame, run its body *)
     Lemma block_ok : forall S V P fr fr' st env ss ps body sc,
@@ -792,13 +796,13 @@ Section Sim.
       (forall x v, In x V' -> dget N.eqb x sc = Some v -> In x ps /\ rref st (length fs, x) = Some (Some v)) ->
       (forall x, In x V' -> In x ps -> dget N.eqb x sc <> None) ->
       gok (S' :: syms_of fs) ->
-      core2_prog body = true -> okocc body -> Forall gok (frames_list oid (S' :: syms_of fs) body) ->
+      core3_prog false body = true -> okocc body -> Forall gok (frames_list oid (S' :: syms_of fs) body) ->
       match enter_frame pynorm d st S' with
       | Err _ => False
       | Ok st1 =>
           match fx pynorm priv d f (S' :: syms_of fs) fr' st1 body with
-          | Ok (st2, o) => exists ss2, sx d f (n :: env) ss1 body = Ok (ss2, o) /\ Inv ((S', V') :: fs) st2 (n :: env) ss2
-          | Err e => sx d f (n :: env) ss1 body = Err e
+          | Ok (st2, o) => exists ss2, sxi d Sr f (n :: env) ss1 body = Ok (ss2, o) /\ Inv ((S', V') :: fs) st2 (n :: env) ss2
+          | Err e => sxi d Sr f (n :: env) ss1 body = Err e
           end
       end.
     Proof.
@@ -812,6 +816,7 @@ Section Sim.
       { apply (env_ok_push fr fr' env (s_scopes ss) He); [apply I|exact Ht]. }
       assert (Pb : Pre S' V' fs body).
       { constructor; auto.
+        - intros Hn. discriminate.
         - apply incl_refl.
         - apply (mk_frame_ok (syms_of fs) ps body). }
       pose proof (IHf S' V' fs fr' st1 (n :: env) ss1 body I1 He1 Pb) as R. unfold R1 in R.
@@ -821,10 +826,10 @@ Section Sim.
     Lemma ld_fst : forall xs : list name, map fst (map (fun x : name => (x, CLoad)) xs) = xs.
     Proof. intros. rewrite map_map. cbn. apply map_id. Qed.
     Lemma pre_one : forall Sy V P s, Pre Sy V P [s] ->
-      core2_stmt s = true /\ incl (onames s) V /\ Forall (fun oc => occ_ok oc = true) (occs s) /\
+      core3_stmt (nilb P) s = true /\ incl (onames s) V /\ Forall (fun oc => occ_ok oc = true) (occs s) /\
       covers (syms_of P) Sy s /\ Forall gok (frames_stmt oid (Sy :: syms_of P) s).
     Proof.
-      intros Sy V P s [C N O Cv G]. cbn [core2_prog] in C. rewrite andb_true_r in C.
+      intros Sy V P s [C Rt N O Cv G]. cbn [core3_prog] in C. rewrite andb_true_r in C.
       unfold onames_l in N. cbn [occs_l flat_map] in N. rewrite app_nil_r in N.
       unfold okocc in O. cbn [occs_l flat_map] in O. rewrite app_nil_r in O.
       destruct Cv as [Cv _]. cbn [frames_list] in G. rewrite app_nil_r in G. auto.
@@ -949,10 +954,10 @@ Section Sim.
     (* facts about the body of a scoping construct *)
     Lemma body_facts : forall Sy V P s body (mk : list symbols -> symbols),
       Pre Sy V P [s] ->
-      core2_stmt s = core2_prog body -> occs s = occs_l body \/ (exists pre, occs s = pre ++ occs_l body) ->
+      core3_stmt (nilb P) s = core3_prog false body -> occs s = occs_l body \/ (exists pre, occs s = pre ++ occs_l body) ->
       frames_stmt oid (Sy :: syms_of P) s =
         (mk (Sy :: syms_of P) :: Sy :: syms_of P) :: frames_list oid (mk (Sy :: syms_of P) :: Sy :: syms_of P) body ->
-      core2_prog body = true /\ okocc body /\ incl (onames_l body) V /\
+      core3_prog false body = true /\ okocc body /\ incl (onames_l body) V /\
       gok (mk (Sy :: syms_of P) :: Sy :: syms_of P) /\
       Forall gok (frames_list oid (mk (Sy :: syms_of P) :: Sy :: syms_of P) body).
     Proof.
@@ -974,12 +979,12 @@ Section Sim.
           do (st2, o) <- fx pynorm priv d f (bs :: Sy :: syms_of P) fl_inner st1 body;
           Ok (leave_frame pynorm st2 bs, apply_filter k o))
          (let '(i, ss1) := new_scope ss [] in
-          do (ss2, o) <- sx d f (i :: env) ss1 body;
+          do (ss2, o) <- sxi d Sr f (i :: env) ss1 body;
           Ok (ss2, apply_filter k o)).
     Proof.
       intros Sy V P fr st env ss k body I He Pr.
       destruct (body_facts Sy V P (SFilter k body) body (fun ch => frame_body oid ch body) Pr) as [Hc [Ho [HV [Hg Hgs]]]].
-      { cbn [core2_stmt]. apply core2_go. } { left. cbn [occs]. apply occs_go. }
+      { cbn [core3_stmt]. apply core3_go. } { left. cbn [occs]. apply occs_go. }
       { cbn [frames_stmt]. rewrite frames_go. reflexivity. }
       assert (Hp0 : forall (x : name) (v : value), In x (onames_l body) -> dget N.eqb x (@nil (name * value)) = Some v ->
                       In x [] /\ rref st (length ((Sy, V) :: P), x) = Some (Some v)) by (intros x v _ H; discriminate).
@@ -987,38 +992,6 @@ Section Sim.
       pose proof (block_ok Sy V P fr fl_inner st env ss [] body [] I He eq_refl (incl_nil_l _) HV Hp0 Hb0 Hg Hc Ho Hgs) as B.
       cbv zeta in B. cbv zeta. unfold new_scope in *; cbn [fst snd] in *.
       change (frame_body oid (Sy :: syms_of P) body) with (mk_frame (syms_of ((Sy, V) :: P)) [] body).
-      destruct (enter_frame pynorm d st (mk_frame (syms_of ((Sy, V) :: P)) [] body)) as [st1|e]; [|contradiction].
-      cbn [bind]. change (syms_of ((Sy, V) :: P)) with (Sy :: syms_of P) in *.
-      destruct (fx pynorm priv d f (mk_frame (Sy :: syms_of P) [] body :: Sy :: syms_of P) fl_inner st1 body) as [[st2 o]|e].
-      - destruct B as [ss2 [E I2]]. rewrite E. cbn [bind]. exists ss2. split; [reflexivity|].
-        apply (leave_ok' ((Sy, V) :: P)). apply (Inv_tail _ _ _ _ _ _ _ I2).
-      - rewrite B. reflexivity.
-    Qed.
-
-    (* ---- with (no targets) *)
-    Lemma case_with0 : forall Sy V P fr st env ss body,
-      Inv ((Sy, V) :: P) st env ss -> env_ok fr env -> Pre Sy V P [SWith [] body] ->
-      R1 ((Sy, V) :: P) env
-         (let ws := frame_with oid (Sy :: syms_of P) [] body in
-          do st1 <- enter_frame pynorm d st ws;
-          do st1' <- Ok st1;
-          do (st2, o) <- fx pynorm priv d f (ws :: Sy :: syms_of P) fl_inner st1' body;
-          Ok (leave_frame pynorm st2 ws, o))
-         (do vs <- Ok (@nil value);
-          let '(i, ss1) := new_scope ss [] in
-          do (ss2, o) <- sx d f (i :: env) ss1 body;
-          Ok (ss2, o)).
-    Proof.
-      intros Sy V P fr st env ss body I He Pr.
-      destruct (body_facts Sy V P (SWith [] body) body (fun ch => frame_with oid ch [] body) Pr) as [Hc [Ho [HV [Hg Hgs]]]].
-      { cbn [core2_stmt]. apply core2_go. } { left. cbn [occs map app exprs_names flat_map]. apply occs_go. }
-      { cbn [frames_stmt map]. rewrite frames_go. reflexivity. }
-      assert (Hp0 : forall (x : name) (v : value), In x (onames_l body) -> dget N.eqb x (@nil (name * value)) = Some v ->
-                      In x [] /\ rref st (length ((Sy, V) :: P), x) = Some (Some v)) by (intros x v _ H; discriminate).
-      assert (Hb0 : forall x : name, In x (onames_l body) -> In x [] -> dget N.eqb x (@nil (name * value)) <> None) by (intros x _ []).
-      pose proof (block_ok Sy V P fr fl_inner st env ss [] body [] I He eq_refl (incl_nil_l _) HV Hp0 Hb0 Hg Hc Ho Hgs) as B.
-      cbv zeta in B. cbv zeta. unfold new_scope in *; cbn [fst snd bind] in *.
-      change (frame_with oid (Sy :: syms_of P) [] body) with (mk_frame (syms_of ((Sy, V) :: P)) [] body).
       destruct (enter_frame pynorm d st (mk_frame (syms_of ((Sy, V) :: P)) [] body)) as [st1|e]; [|contradiction].
       cbn [bind]. change (syms_of ((Sy, V) :: P)) with (Sy :: syms_of P) in *.
       destruct (fx pynorm priv d f (mk_frame (Sy :: syms_of P) [] body :: Sy :: syms_of P) fl_inner st1 body) as [[st2 o]|e].
@@ -1037,12 +1010,12 @@ Section Sim.
           do st3 <- assign pynorm priv (Sy :: syms_of P) fr st2 x (VStr o);
           Ok (leave_frame pynorm st3 bs, []))
          (let '(i, ss1) := new_scope ss [] in
-          do (ss2, o) <- sx d f (i :: env) ss1 body;
+          do (ss2, o) <- sxi d Sr f (i :: env) ss1 body;
           Ok (sassign env ss2 x (VStr o), [])).
     Proof.
       intros Sy V P fr st env ss x body I He Pr.
       destruct (body_facts Sy V P (SSetBlock x body) body (fun ch => frame_body oid ch body) Pr) as [Hc [Ho [HV [Hg Hgs]]]].
-      { cbn [core2_stmt]. apply core2_go. } { right. exists [(x, CStore)]. cbn [occs]. rewrite occs_go. reflexivity. }
+      { cbn [core3_stmt]. apply core3_go. } { right. exists [(x, CStore)]. cbn [occs]. rewrite occs_go. reflexivity. }
       { cbn [frames_stmt]. rewrite frames_go. reflexivity. }
       destruct (pre_one _ _ _ _ Pr) as [_ [N [_ [Cv _]]]]. cbn [covers] in Cv.
       assert (HxV : In x V) by (apply N; left; reflexivity).
@@ -1074,10 +1047,10 @@ Section Sim.
     Definition s_go (env : list nat) (ss : sstate) (els : list stmt) :=
       fix go (ei : list stmt) : res (sstate * str) :=
         match ei with
-        | [] => sx d f env ss els
+        | [] => sxi d Sr f env ss els
         | SIf t2 b2 _ _ :: r =>
             do v2 <- eval (slk d env ss) (s_heap ss) t2;
-            if truthy v2 then sx d f env ss b2 else go r
+            if truthy v2 then sxi d Sr f env ss b2 else go r
         | _ :: r => go r
         end.
 
@@ -1085,7 +1058,7 @@ Section Sim.
     Proof. intros. unfold onames_l, onames. rewrite occs_l_cons, map_app. reflexivity. Qed.
 
     Lemma sub_pre : forall Sy V P l,
-      core2_prog l = true -> incl (onames_l l) V -> okocc l -> covers_l (syms_of P) Sy l ->
+      core3_prog (nilb P) l = true -> (P = [] -> Sy = Sr) -> incl (onames_l l) V -> okocc l -> covers_l (syms_of P) Sy l ->
       Forall gok (frames_list oid (Sy :: syms_of P) l) -> Pre Sy V P l.
     Proof. intros. constructor; auto. Qed.
 
@@ -1098,14 +1071,14 @@ Section Sim.
       - destruct (Pre_cons _ _ _ _ _ Pei) as [Ps Pr]. specialize (IH Pr).
         destruct s; try exact IH. cbn [f_go s_go]. fold (f_go (Sy :: syms_of P) fr st els r). fold (s_go env ss els r).
         destruct (pre_one _ _ _ _ Ps) as [C [N [O [Cv G]]]]. apply covers_if in Cv. destruct Cv as [Cv1 [Cv2 _]].
-        cbn [core2_stmt] in C. rewrite !core2_go in C. apply andb_true_iff in C. destruct C as [C _]. apply andb_true_iff in C. destruct C as [C _].
+        cbn [core3_stmt] in C. rewrite (core3_go (nilb P) body), (core3_go (nilb P) elifs), (core3_go (nilb P) els0) in C. apply andb_true_iff in C. destruct C as [C _]. apply andb_true_iff in C. destruct C as [C _].
         unfold onames in N. cbn [occs] in N. rewrite !occs_go, !map_app, ld_fst in N.
         cbn [occs] in O. rewrite !occs_go in O. apply Forall_app in O. destruct O as [_ O]. apply Forall_app in O. destruct O as [O _].
         cbn [frames_stmt] in G. rewrite !frames_go in G. apply Forall_app in G. destruct G as [G _].
         rewrite (eval_agree Sy V P st env ss test I Cv1); [|intros y Hy; apply N; apply in_or_app; left; exact Hy].
         destruct (eval (slk d env ss) (s_heap ss) test) as [v|e]; cbn [bind]; [|reflexivity].
         destruct (truthy v); [|exact IH].
-        apply IHf; auto. apply sub_pre; auto.
+        apply IHf; auto. apply sub_pre; auto; [apply (p_root _ _ _ _ Ps)|].
         intros y Hy. apply N. apply in_or_app. right. apply in_or_app. left. exact Hy.
     Qed.
 
@@ -1116,11 +1089,11 @@ Section Sim.
           if truthy v then fx pynorm priv d f (Sy :: syms_of P) fr st body
           else f_go (Sy :: syms_of P) fr st els elifs)
          (do v <- eval (slk d env ss) (s_heap ss) t;
-          if truthy v then sx d f env ss body else s_go env ss els elifs).
+          if truthy v then sxi d Sr f env ss body else s_go env ss els elifs).
     Proof.
       intros Sy V P fr st env ss t body elifs els I He Pr.
       destruct (pre_one _ _ _ _ Pr) as [C [N [O [Cv G]]]]. apply covers_if in Cv. destruct Cv as [Cv1 [Cv2 [Cv3 Cv4]]].
-      cbn [core2_stmt] in C. rewrite !core2_go in C. apply andb_true_iff in C. destruct C as [C C3]. apply andb_true_iff in C. destruct C as [C1 C2].
+      cbn [core3_stmt] in C. rewrite (core3_go (nilb P) body), (core3_go (nilb P) elifs), (core3_go (nilb P) els) in C. apply andb_true_iff in C. destruct C as [C C3]. apply andb_true_iff in C. destruct C as [C1 C2].
       unfold onames in N. cbn [occs] in N. rewrite !occs_go, !map_app, ld_fst in N.
       cbn [occs] in O. rewrite !occs_go in O. apply Forall_app in O. destruct O as [_ O]. apply Forall_app in O. destruct O as [O1 O].
       apply Forall_app in O. destruct O as [O2 O3].
@@ -1128,178 +1101,18 @@ Section Sim.
       rewrite (eval_agree Sy V P st env ss t I Cv1); [|intros y Hy; apply N; apply in_or_app; left; exact Hy].
       destruct (eval (slk d env ss) (s_heap ss) t) as [v|e]; cbn [bind]; [|reflexivity].
       assert (Pb : Pre Sy V P body).
-      { apply sub_pre; auto. intros y Hy. apply N. apply in_or_app. right. apply in_or_app. left. exact Hy. }
+      { apply sub_pre; auto; [apply (p_root _ _ _ _ Pr)|]. intros y Hy. apply N. apply in_or_app. right. apply in_or_app. left. exact Hy. }
       assert (Pei : Pre Sy V P elifs).
-      { apply sub_pre; auto. intros y Hy. apply N. apply in_or_app. right. apply in_or_app. right. apply in_or_app. left. exact Hy. }
+      { apply sub_pre; auto; [apply (p_root _ _ _ _ Pr)|]. intros y Hy. apply N. apply in_or_app. right. apply in_or_app. right. apply in_or_app. left. exact Hy. }
       assert (Pel : Pre Sy V P els).
-      { apply sub_pre; auto. intros y Hy. apply N. apply in_or_app. right. apply in_or_app. right. apply in_or_app. right. exact Hy. }
+      { apply sub_pre; auto; [apply (p_root _ _ _ _ Pr)|]. intros y Hy. apply N. apply in_or_app. right. apply in_or_app. right. apply in_or_app. right. exact Hy. }
       destruct (truthy v); [apply IHf; auto|apply go_ok; auto].
     Qed.
-
-    (* ---- for *)
-    Definition f_iter (syms : list symbols) (ls : symbols) (lvl : nat) (tg : name) (ext : bool) (body : list stmt) :=
-      fix iter (items : list value) (idx : N) (st : fstate) (tloc : locmap) (out : str) : res (fstate * str * N) :=
-        match items with
-        | [] => Ok (st, out, idx)
-        | item :: more =>
-            let st := write_ref pynorm st (lvl, tg) (Some item) in
-            let st := if ext then write_ref pynorm st (lvl, n_loop) (Some (VLoop (idx + 1))) else st in
-            do st <- enter_frame pynorm d st ls;
-            do (st, o) <- fx pynorm priv d f (ls :: syms) (mkFl false true) st body;
-            iter more (idx + 1)%N st tloc (out ++ o)
-        end.
-    Definition s_iter (env : list nat) (tg : name) (body : list stmt) :=
-      fix iter (items : list value) (idx : N) (st : sstate) (out : str) : res (sstate * str * N) :=
-        match items with
-        | [] => Ok (st, out, idx)
-        | item :: more =>
-            let '(i, st) := new_scope st [(tg, item); (n_loop, VLoop (idx + 1))] in
-            do (st, o) <- sx d f (i :: env) st body;
-            iter more (idx + 1)%N st (out ++ o)
-        end.
 
     Lemma Inv_write_high : forall fs st env ss id v, Inv fs st env ss -> length fs <= fst id -> Inv fs (wref st id v) env ss.
     Proof.
       intros fs st env ss id v I H. apply (Inv_ext fs st); [exact I|apply same_misc_write|].
       intros id' Hid. apply read_write_level. lia.
-    Qed.
-
-    Lemma iter_ok : forall Sy V P fr env tg body,
-      let fs := (Sy, V) :: P in
-      env_ok fr env -> In tg V -> tg <> n_loop -> incl (onames_l body) V ->
-      core2_prog body = true -> okocc body ->
-      gok (mk_frame (syms_of fs) (loop_ps tg body) body :: syms_of fs) ->
-      Forall gok (frames_list oid (mk_frame (syms_of fs) (loop_ps tg body) body :: syms_of fs) body) ->
-      forall items idx st ss out, Inv fs st env ss ->
-      match f_iter (syms_of fs) (mk_frame (syms_of fs) (loop_ps tg body) body) (length fs) tg (extended_loop body) body items idx st [] out with
-      | Ok (st', out', n) => exists ss', s_iter env tg body items idx ss out = Ok (ss', out', n) /\ Inv fs st' env ss'
-      | Err e => s_iter env tg body items idx ss out = Err e
-      end.
-    Proof.
-      intros Sy V P fr env tg body fs He HtgV Htl HV Hc Ho Hg Hgs.
-      induction items as [|item more IH]; intros idx st ss out I.
-      - cbn. exists ss. auto.
-      - cbn [f_iter s_iter]. fold (f_iter (syms_of fs) (mk_frame (syms_of fs) (loop_ps tg body) body) (length fs) tg (extended_loop body) body).
-        fold (s_iter env tg body). cbv zeta.
-        set (st1 := wref st (length fs, tg) (Some item)).
-        set (st2 := if extended_loop body then wref st1 (length fs, n_loop) (Some (VLoop (idx + 1))) else st1).
-        assert (HV0 : incl V V0). { destruct (i_wf _ _ _ _ I) as [_ [_ [H0 _]]]. exact H0. }
-        assert (I2 : Inv fs st2 env ss).
-        { unfold st2, st1. destruct (extended_loop body); repeat apply Inv_write_high; auto. }
-        pose proof (block_ok Sy V P fr (mkFl false true) st2 env ss (loop_ps tg body) body
-                      [(tg, item); (n_loop, VLoop (idx + 1))] I2 He eq_refl) as B. cbv zeta in B.
-        fold fs in B. unfold new_scope in *. cbn [fst snd] in *.
-        assert (Hps : incl (loop_ps tg body) V0).
-        { unfold loop_ps. intros x Hx. apply in_app_or in Hx. destruct Hx as [Hx|[<-|[]]]; [|apply HV0; exact HtgV].
-          destruct (extended_loop body); [destruct Hx as [<-|[]]; exact Hloop0|contradiction]. }
-        specialize (B Hps HV).
-        assert (Hpar : forall x v, In x (onames_l body) -> dget N.eqb x [(tg, item); (n_loop, VLoop (idx + 1))] = Some v ->
-                        In x (loop_ps tg body) /\ rref st2 (length fs, x) = Some (Some v)).
-        { intros x v Hx Hd. cbn [dget] in Hd. destruct (N.eqb_spec x tg) as [->|Hne].
-          - injection Hd as <-. split; [unfold loop_ps; apply in_or_app; right; left; reflexivity|].
-            unfold st2, st1. destruct (extended_loop body).
-            + rewrite read_write_name; auto. apply read_write_same.
-            + apply read_write_same.
-          - destruct (N.eqb_spec x n_loop) as [->|Hnl]; [|discriminate]. injection Hd as <-.
-            pose proof (extended_true body Ho Hx) as Hext. unfold st2, loop_ps. rewrite Hext.
-            split; [apply in_or_app; left; left; reflexivity|apply read_write_same]. }
-        assert (Hb : forall x, In x (onames_l body) -> In x (loop_ps tg body) ->
-                       dget N.eqb x [(tg, item); (n_loop, VLoop (idx + 1))] <> None).
-        { intros x _ Hx. unfold loop_ps in Hx. apply in_app_or in Hx. cbn [dget].
-          destruct (N.eqb_spec x tg); [discriminate|]. destruct (N.eqb_spec x n_loop); [discriminate|].
-          destruct Hx as [Hx|[<-|[]]]; [|congruence]. destruct (extended_loop body); [destruct Hx as [<-|[]]; congruence|contradiction]. }
-        specialize (B Hpar Hb Hg Hc Ho Hgs).
-        destruct (enter_frame pynorm d st2 (mk_frame (syms_of fs) (loop_ps tg body) body)) as [st3|e]; [|contradiction].
-        cbn [bind].
-        destruct (fx pynorm priv d f (mk_frame (syms_of fs) (loop_ps tg body) body :: syms_of fs) (mkFl false true) st3 body) as [[st4 o]|e].
-        + destruct B as [ss2 [E I4]]. rewrite E. cbn [bind]. apply IH. apply (Inv_tail _ _ _ _ _ _ _ I4).
-        + rewrite B. reflexivity.
-    Qed.
-
-    Lemma case_for : forall Sy V P fr st env ss tg it body els,
-      Inv ((Sy, V) :: P) st env ss -> env_ok fr env -> Pre Sy V P [SFor tg it None body els] ->
-      R1 ((Sy, V) :: P) env
-         (let lvl := S (s_level Sy) in
-          let ls := frame_for_body oid (Sy :: syms_of P) tg body in
-          do v <- eval (flk pynorm (Sy :: syms_of P) st) (f_heap st) it;
-          let st0 := if extended_loop body then wref st (lvl, n_loop) None else st in
-          do items <- iter_items v;
-          do r <- f_iter (Sy :: syms_of P) ls lvl tg (extended_loop body) body items 0%N st0 [] [];
-          let '(st1, out, n) := r in
-          let st2 := leave_frame pynorm st1 ls in
-          match els with
-          | [] => Ok (st2, out)
-          | _ :: _ =>
-              if N.eqb n 0 then
-                let es := frame_for_else oid (Sy :: syms_of P) els in
-                do st3 <- enter_frame pynorm d st2 es;
-                do (st4, o) <- fx pynorm priv d f (es :: Sy :: syms_of P) fl_inner st3 els;
-                Ok (leave_frame pynorm st4 es, out ++ o)
-              else Ok (st2, out)
-          end)
-         (do v <- eval (slk d env ss) (s_heap ss) it;
-          do items <- iter_items v;
-          do r <- s_iter env tg body items 0%N ss [];
-          let '(ss1, out, n) := r in
-          match els with
-          | [] => Ok (ss1, out)
-          | _ :: _ =>
-              if N.eqb n 0 then
-                let '(i, ss2) := new_scope ss1 [] in
-                do (ss3, o) <- sx d f (i :: env) ss2 els;
-                Ok (ss3, out ++ o)
-              else Ok (ss1, out)
-          end).
-    Proof.
-      intros Sy V P fr st env ss tg it body els I He Pr.
-      destruct (pre_one _ _ _ _ Pr) as [C [N [O [Cv G]]]]. cbn [covers] in Cv.
-      cbn [core2_stmt] in C. rewrite !core2_go in C. apply andb_true_iff in C. destruct C as [C1 C2].
-      unfold onames in N. cbn [occs map fst] in N. rewrite !occs_go, !map_app, ld_fst, app_nil_r in N.
-      cbn [occs] in O. rewrite !occs_go, app_nil_r in O. inversion O as [|? ? Otg O']; subst.
-      apply Forall_app in O'. destruct O' as [_ O']. apply Forall_app in O'. destruct O' as [O1 O2].
-      cbn [frames_stmt app] in G. rewrite !frames_go in G. inversion G as [|? ? Gb G']; subst.
-      apply Forall_app in G'. destruct G' as [Gbs Ge].
-      assert (Lv : s_level Sy = length P). { destruct (i_wf _ _ _ _ I) as [_ [Lv _]]. exact Lv. }
-      assert (HtgV : In tg V) by (apply N; left; reflexivity).
-      assert (Htl : tg <> n_loop).
-      { intros ->. unfold occ_ok in Otg. cbn in Otg. discriminate. }
-      assert (HVb : incl (onames_l body) V).
-      { intros y Hy. apply N. right. apply in_or_app. right. apply in_or_app. left. exact Hy. }
-      assert (HVe : incl (onames_l els) V).
-      { intros y Hy. apply N. right. apply in_or_app. right. apply in_or_app. right. exact Hy. }
-      cbv zeta. rewrite (eval_agree Sy V P st env ss it I Cv); [|intros y Hy; apply N; right; apply in_or_app; left; exact Hy].
-      destruct (eval (slk d env ss) (s_heap ss) it) as [v|e]; cbn [bind]; [|reflexivity].
-      destruct (iter_items v) as [items|e]; cbn [bind]; [|reflexivity].
-      rewrite frame_for_body_eq in *. rewrite Lv.
-      set (st0 := if extended_loop body then wref st (S (length P), n_loop) None else st).
-      assert (I0 : Inv ((Sy, V) :: P) st0 env ss).
-      { unfold st0. destruct (extended_loop body); [apply Inv_write_high; [exact I|cbn; lia]|exact I]. }
-      pose proof (iter_ok Sy V P fr env tg body He HtgV Htl HVb C1 O1 Gb Gbs items 0%N st0 ss [] I0) as IT.
-      cbv zeta in IT. change (syms_of ((Sy, V) :: P)) with (Sy :: syms_of P) in IT. cbn [length] in IT.
-      destruct (f_iter (Sy :: syms_of P) (mk_frame (Sy :: syms_of P) (loop_ps tg body) body) (S (length P)) tg
-                  (extended_loop body) body items 0%N st0 [] []) as [[[st1 out] n]|e].
-      - destruct IT as [ss1 [E I1]]. rewrite E. cbn [bind].
-        pose proof (leave_ok' ((Sy, V) :: P) st1 env ss1 (loop_ps tg body) body I1) as I2.
-        change (syms_of ((Sy, V) :: P)) with (Sy :: syms_of P) in I2.
-        destruct els as [|e0 els']; [exists ss1; auto|].
-        destruct (N.eqb n 0); [|exists ss1; auto].
-        set (els := e0 :: els') in *.
-        assert (Hp0 : forall (x : name) (v : value), In x (onames_l els) -> dget N.eqb x (@nil (name * value)) = Some v ->
-                        In x [] /\ rref (leave_frame pynorm st1 (mk_frame (Sy :: syms_of P) (loop_ps tg body) body)) (length ((Sy, V) :: P), x) = Some (Some v)) by (intros x v0 _ H; discriminate).
-        assert (Hb0 : forall x : name, In x (onames_l els) -> In x [] -> dget N.eqb x (@nil (name * value)) <> None) by (intros x _ []).
-        assert (Gel : gok (mk_frame (Sy :: syms_of P) [] els :: Sy :: syms_of P) /\
-                      Forall gok (frames_list oid (mk_frame (Sy :: syms_of P) [] els :: Sy :: syms_of P) els)).
-        { unfold els in *. inversion Ge as [|? ? Ge1 Ge2]; subst. split; [exact Ge1|exact Ge2]. }
-        pose proof (block_ok Sy V P fr fl_inner _ env ss1 [] els [] I2 He eq_refl (incl_nil_l _) HVe Hp0 Hb0 (proj1 Gel) C2 O2 (proj2 Gel)) as B.
-        cbv zeta in B. cbv zeta. unfold new_scope in *; cbn [fst snd] in *.
-        change (frame_for_else oid (Sy :: syms_of P) els) with (mk_frame (syms_of ((Sy, V) :: P)) [] els).
-        destruct (enter_frame pynorm d _ (mk_frame (syms_of ((Sy, V) :: P)) [] els)) as [st3|e]; [|contradiction].
-        cbn [bind]. change (syms_of ((Sy, V) :: P)) with (Sy :: syms_of P) in *.
-        destruct (fx pynorm priv d f (mk_frame (Sy :: syms_of P) [] els :: Sy :: syms_of P) fl_inner st3 els) as [[st4 o]|e].
-        + destruct B as [ss3 [E3 I4]]. rewrite E3. cbn [bind]. exists ss3. split; [reflexivity|].
-          apply (leave_ok' ((Sy, V) :: P)). apply (Inv_tail _ _ _ _ _ _ _ I4).
-        + rewrite B. reflexivity.
-      - rewrite IT. reflexivity.
     Qed.
 
     (* ================================================================ with-targets *)
@@ -1393,12 +1206,12 @@ Section Sim.
          (do vs <- eval_list (slk d env ss) (s_heap ss) (map snd binds);
           let '(i, ss1) := new_scope ss (fold_left (fun acc xv => dset N.eqb (fst xv) (snd xv) acc)
                                                    (combine (map fst binds) vs) []) in
-          do (ss2, o) <- sx d f (i :: env) ss1 body;
+          do (ss2, o) <- sxi d Sr f (i :: env) ss1 body;
           Ok (ss2, o)).
     Proof.
       intros Sy V P fr st env ss binds body I He Pr.
       destruct (body_facts Sy V P (SWith binds body) body (fun ch => frame_with oid ch (map fst binds) body) Pr) as [Hc [Ho [HV [Hg Hgs]]]].
-      { cbn [core2_stmt]. apply core2_go. }
+      { cbn [core3_stmt]. apply core3_go. }
       { right. eexists. cbn [occs]. rewrite occs_go, app_assoc. reflexivity. }
       { cbn [frames_stmt]. rewrite frames_go. reflexivity. }
       destruct (pre_one _ _ _ _ Pr) as [_ [N [_ [Cv _]]]]. cbn [covers] in Cv.
@@ -1434,14 +1247,14 @@ Section Sim.
         unfold new_scope in I2; cbn [snd] in I2.
         assert (He1 : env_ok fl_inner (length (s_scopes ss) :: env)) by (apply (env_ok_push fr fl_inner env (s_scopes ss) He); [apply I|reflexivity]).
         assert (Pb : Pre (mk_frame (Sy :: syms_of P) (map fst binds) body) (onames_l body) ((Sy, V) :: P) body).
-        { constructor; auto. - apply incl_refl. - apply (mk_frame_ok (Sy :: syms_of P) (map fst binds) body). }
+        { constructor; auto. - intros Hn; discriminate. - apply incl_refl. - apply (mk_frame_ok (Sy :: syms_of P) (map fst binds) body). }
         pose proof (IHf _ _ _ fl_inner _ _ _ body I2 He1 Pb) as R. unfold R1 in R. change (syms_of ((Sy, V) :: P)) with (Sy :: syms_of P) in R.
         destruct (fx pynorm priv d f (mk_frame (Sy :: syms_of P) (map fst binds) body :: Sy :: syms_of P) fl_inner stn body) as [[st3 o]|e].
         + destruct R as [ss2 [E2 I3]].
-          match goal with |- context [sx d f ?e ?s0 body] => replace (sx d f e s0 body) with (@Ok (sstate * str) (ss2, o)) by (symmetry; exact E2) end.
+          match goal with |- context [sxi d Sr f ?e ?s0 body] => replace (sxi d Sr f e s0 body) with (@Ok (sstate * str) (ss2, o)) by (symmetry; exact E2) end.
           cbn [bind]. exists ss2. split; [reflexivity|].
           apply (leave_ok' ((Sy, V) :: P)). apply (Inv_tail _ _ _ _ _ _ _ I3).
-        + match goal with |- context [sx d f ?e0 ?s0 body] => replace (sx d f e0 s0 body) with (@Err (sstate * str) e) by (symmetry; exact R) end.
+        + match goal with |- context [sxi d Sr f ?e0 ?s0 body] => replace (sxi d Sr f e0 s0 body) with (@Err (sstate * str) e) by (symmetry; exact R) end.
           reflexivity.
       - match goal with |- context [eval_list ?a ?b ?c] => replace (eval_list a b c) with (@Err (list value) err) by (symmetry; exact B) end.
         reflexivity.
@@ -1533,7 +1346,7 @@ Section Sim.
         assert (Hrd : forall id, rref stt id = if ident_eqb (kk id) (kk (lvl, tg)) then Some (Some item)
                                                else match dget ident_eqb (kk id) tloc with Some v => Some v | None => rref st id end).
         { intros id. unfold stt. rewrite read_write. destruct (ident_eqb (kk id) (kk (lvl, tg))); [reflexivity|].
-          apply read_push. apply I. }
+          apply read_push. apply (Inv_chain_ok _ _ _ _ I). }
         assert (HtgV0 : In tg V0) by (apply HV0; exact HtgV).
         split; [|split].
         - (* evaluation *)
@@ -1586,7 +1399,7 @@ Section Sim.
         intros st ss I Hz. destruct (ts_facts st ss I) as [WS [Lv [Htg [Hrefs [HV0 Fd]]]]].
         set (stp := push_act st [] (cur_id st :: f_chain st)).
         assert (Hp : forall id, rref stp id = rref st id).
-        { intros id. unfold stp. rewrite read_push; [reflexivity|apply I]. }
+        { intros id. unfold stp. rewrite read_push; [reflexivity|apply (Inv_chain_ok _ _ _ _ I)]. }
         destruct (enter_loads_spec lvl (s_loads ts) stp (wf_nodup _ _ _ WS)) as [st' [E [M [A [B C]]]]].
         { intros id l Hin. destruct (wf_keys _ _ _ WS id l Hin) as [x [-> [Hr L]]]. cbn [fst snd]. split; [exact Lv|].
           split; [destruct (Hrefs x Hr) as [->|Hx]; [apply HV0; exact HtgV|apply HV0; apply HtV; exact Hx]|].
@@ -1597,7 +1410,7 @@ Section Sim.
         { intros id. destruct M as [M1 [M2 _]]. unfold read_ref at 1. rewrite M1, M2.
           destruct (dget ident_eqb (kk id) (f_loc st')); [reflexivity|].
           unfold stp, push_act, cur_id; cbn [f_below f_chain read_chain]. rewrite app_nth2; [|lia]. rewrite Nat.sub_diag. cbn [nth a_loc].
-          unfold read_ref. destruct (dget ident_eqb (kk id) (f_loc st)); [reflexivity|]. apply read_chain_app. apply I. }
+          unfold read_ref. destruct (dget ident_eqb (kk id) (f_loc st)); [reflexivity|]. apply read_chain_app. apply (Inv_chain_ok _ _ _ _ I). }
         assert (Hcv : forall x, lookup_env (s_scopes ss) env x = None -> dget N.eqb x (f_cvars stp) = None).
         { intros x Hn. unfold stp, push_act; cbn [f_cvars]. rewrite (i_cvars _ _ _ _ I). apply (lookup_env_none_in env _ x 0 Hn Hz). }
         split; [split|].
@@ -1689,7 +1502,7 @@ Section Sim.
                       end);
             if ok then
               let '(i, st) := new_scope st [(tg, item); (n_loop, VLoop (idx + 1))] in
-              do (st, o) <- sx d f (i :: env) st body;
+              do (st, o) <- sxi d Sr f (i :: env) st body;
               iter more (idx + 1)%N st (out ++ o)
             else iter more idx st out
         end.
@@ -1705,7 +1518,7 @@ Section Sim.
       (K1 : fstate -> str -> res (fstate * str * N)) (K2 : sstate -> str -> res (sstate * str * N)) stp ss idx item,
       let fs := (Sy, V) :: P in
       env_ok fr env -> In tg V -> tg <> n_loop -> incl (onames_l body) V ->
-      core2_prog body = true -> okocc body ->
+      core3_prog false body = true -> okocc body ->
       gok (mk_frame (syms_of fs) (loop_ps tg body) body :: syms_of fs) ->
       Forall gok (frames_list oid (mk_frame (syms_of fs) (loop_ps tg body) body :: syms_of fs) body) ->
       Inv fs stp env ss ->
@@ -1717,7 +1530,7 @@ Section Sim.
          do (st, o) <- fx pynorm priv d f (mk_frame (syms_of fs) (loop_ps tg body) body :: syms_of fs) (mkFl false true) st body;
          K1 st o)
         (let '(i, st) := new_scope ss [(tg, item); (n_loop, VLoop (idx + 1))] in
-         do (st, o) <- sx d f (i :: env) st body;
+         do (st, o) <- sxi d Sr f (i :: env) st body;
          K2 st o).
     Proof.
       intros Sy V P fr env tg body K1 K2 stp ss idx item fs He HtgV Htl HV Hc Ho Hg Hgs Ip HK.
@@ -1762,7 +1575,7 @@ Section Sim.
       (match te with Some t => ts = mk_frame (syms_of fs) [tg] [SOut [t]] | None => True end) ->
       env_ok fr env -> In tg V -> tg <> n_loop -> incl (onames_l body) V ->
       (match te with Some t => incl (expr_names t) V | None => True end) ->
-      core2_prog body = true -> okocc body ->
+      core3_prog false body = true -> okocc body ->
       gok (mk_frame (syms_of fs) (loop_ps tg body) body :: syms_of fs) ->
       Forall gok (frames_list oid (mk_frame (syms_of fs) (loop_ps tg body) body :: syms_of fs) body) ->
       forall items idx st ss tloc out, Inv fs st env ss ->
@@ -1836,14 +1649,14 @@ Section Sim.
           | _ :: _ =>
               if N.eqb n 0 then
                 let '(i, ss2) := new_scope ss1 [] in
-                do (ss3, o) <- sx d f (i :: env) ss2 els;
+                do (ss3, o) <- sxi d Sr f (i :: env) ss2 els;
                 Ok (ss3, out ++ o)
               else Ok (ss1, out)
           end).
     Proof.
       intros Sy V P fr st env ss tg it te body els I He Pr.
       destruct (pre_one _ _ _ _ Pr) as [C [N [O [Cv G]]]]. cbn [covers] in Cv.
-      cbn [core2_stmt] in C. rewrite !core2_go in C. apply andb_true_iff in C. destruct C as [C1 C2].
+      cbn [core3_stmt] in C. rewrite (core3_go false body), (core3_go false els) in C. apply andb_true_iff in C. destruct C as [C1 C2].
       unfold onames in N. cbn [occs map fst] in N. rewrite !occs_go, !map_app, ld_fst in N.
       cbn [occs] in O. rewrite !occs_go in O. inversion O as [|? ? Otg O']; subst.
       apply Forall_app in O'. destruct O' as [_ O']. apply Forall_app in O'. destruct O' as [O1 O'].
@@ -1912,24 +1725,55 @@ Section Sim.
       - rewrite IT. reflexivity.
     Qed.
 
+    (* ---- macro definition (top level): the closure the generated code stores is the one the
+       instrumented reference interpreter stores *)
+    Lemma case_macro : forall Sy V P fr st env ss m ps body,
+      Inv ((Sy, V) :: P) st env ss -> env_ok fr env -> Pre Sy V P [SMacro m ps body] ->
+      R1 ((Sy, V) :: P) env
+         (let c := VClos KMacro m ps body (macro_uses_caller body) (cur_id st :: f_chain st) (Sy :: syms_of P) in
+          match find_ref (Sy :: syms_of P) m with
+          | None => Err EInternal
+          | Some id =>
+              let st0 := if toplevel fr then set_cvar st m c (negb (priv m)) else st in
+              Ok (write_ref pynorm st0 id (Some c), [])
+          end)
+         (Ok (sassign env ss m (VClos KMacro m ps body (macro_uses_caller body) env [Sr]), [])).
+    Proof.
+      intros Sy V P fr st env ss m ps body I He Pr.
+      destruct (pre_one _ _ _ _ Pr) as [C [N [_ [Cv _]]]]. cbn [core3_stmt] in C.
+      destruct P as [|p0 P']; [|discriminate C].
+      pose proof (p_root _ _ _ _ Pr eq_refl) as HS. subst Sy. cbn [covers] in Cv.
+      assert (HmV : In m V). { apply N. unfold onames. cbn [occs map fst]. left. reflexivity. }
+      pose proof (chain_rel_len _ _ _ _ (i_rel _ _ _ _ I)) as HL. destruct env as [|i [|j E]]; try discriminate HL.
+      destruct He as [Hnd [Hz Htop]]. destruct Hz as [->|[]].
+      assert (Ht : toplevel fr = true). { destruct (toplevel fr); [reflexivity|]. cbn in Htop. contradiction. }
+      destruct (i_root _ _ _ _ I) as [Hb Hc]. unfold cur_id. rewrite Hb, Hc. cbn [length syms_of map].
+      cbv zeta.
+      destruct (assign_ok Sr V [] fr st [0] ss m (VClos KMacro m ps body (macro_uses_caller body) [0] [Sr]) I
+                  (conj Hnd (conj (or_introl eq_refl) Htop)) Cv HmV) as [st' [E [I' _]]].
+      unfold assign in E. cbn [syms_of map] in E.
+      destruct (find_ref [Sr] m) as [id|]; [|discriminate E]. injection E as <-. rewrite Ht in *.
+      eexists. split; [reflexivity|]. exact I'.
+    Qed.
+
     Lemma step_ok : forall Sy V P fr st env ss s rest,
       Inv ((Sy, V) :: P) st env ss -> env_ok fr env -> Pre Sy V P (s :: rest) ->
       R1 ((Sy, V) :: P) env (fx pynorm priv d (S f) (Sy :: syms_of P) fr st (s :: rest))
-                            (sx d (S f) env ss (s :: rest)).
+                            (sxi d Sr (S f) env ss (s :: rest)).
     Proof.
       intros Sy V P fr st env ss s rest I He Pr. destruct (Pre_cons _ _ _ _ _ Pr) as [Ps Prest].
-      assert (Hcore : core2_stmt s = true) by (apply (pre_one _ _ _ _ Ps)).
+      assert (Hcore : core3_stmt (nilb P) s = true) by (apply (pre_one _ _ _ _ Ps)).
       destruct s as [es|t b ei el|tg it te b el|x e|x a e|x kvs|x b|bs b|k b|m ps b|g args|ps g args b].
-      - cbn [fx sx]. apply R1_seq; [|intros st1 ss1 I1; apply IHf; auto]. apply case_out; auto.
-      - cbn [fx sx]. apply R1_seq; [|intros st1 ss1 I1; apply IHf; auto]. apply case_if; auto.
-      - cbn [fx sx]. apply R1_seq; [|intros st1 ss1 I1; apply IHf; auto]. apply (case_for2 Sy V P fr); auto.
-      - cbn [fx sx]. apply R1_seq; [|intros st1 ss1 I1; apply IHf; auto]. apply case_set; auto.
-      - cbn [fx sx]. apply R1_seq; [|intros st1 ss1 I1; apply IHf; auto]. apply case_seta; auto.
-      - cbn [fx sx]. apply R1_seq; [|intros st1 ss1 I1; apply IHf; auto]. apply case_nsnew; auto.
-      - cbn [fx sx]. apply R1_seq; [|intros st1 ss1 I1; apply IHf; auto]. apply (case_setb Sy V P fr); auto.
-      - cbn [fx sx]. apply R1_seq; [|intros st1 ss1 I1; apply IHf; auto]. apply (case_with Sy V P fr); auto.
-      - cbn [fx sx]. apply R1_seq; [|intros st1 ss1 I1; apply IHf; auto]. apply (case_filt Sy V P fr); auto.
-      - cbn in Hcore. discriminate.
+      - cbn [fx sxi]. apply R1_seq; [|intros st1 ss1 I1; apply IHf; auto]. apply case_out; auto.
+      - cbn [fx sxi]. apply R1_seq; [|intros st1 ss1 I1; apply IHf; auto]. apply case_if; auto.
+      - cbn [fx sxi]. apply R1_seq; [|intros st1 ss1 I1; apply IHf; auto]. apply (case_for2 Sy V P fr); auto.
+      - cbn [fx sxi]. apply R1_seq; [|intros st1 ss1 I1; apply IHf; auto]. apply case_set; auto.
+      - cbn [fx sxi]. apply R1_seq; [|intros st1 ss1 I1; apply IHf; auto]. apply case_seta; auto.
+      - cbn [fx sxi]. apply R1_seq; [|intros st1 ss1 I1; apply IHf; auto]. apply case_nsnew; auto.
+      - cbn [fx sxi]. apply R1_seq; [|intros st1 ss1 I1; apply IHf; auto]. apply (case_setb Sy V P fr); auto.
+      - cbn [fx sxi]. apply R1_seq; [|intros st1 ss1 I1; apply IHf; auto]. apply (case_with Sy V P fr); auto.
+      - cbn [fx sxi]. apply R1_seq; [|intros st1 ss1 I1; apply IHf; auto]. apply (case_filt Sy V P fr); auto.
+      - cbn [fx sxi]. apply R1_seq; [|intros st1 ss1 I1; apply IHf; auto]. apply (case_macro Sy V P fr); auto.
       - cbn in Hcore. discriminate.
       - cbn in Hcore. discriminate.
     Qed.
@@ -1937,7 +1781,7 @@ Section Sim.
 
   Lemma sim : forall fuel Sy V P fr st env ss l,
     Inv ((Sy, V) :: P) st env ss -> env_ok fr env -> Pre Sy V P l ->
-    R1 ((Sy, V) :: P) env (fx pynorm priv d fuel (Sy :: syms_of P) fr st l) (sx d fuel env ss l).
+    R1 ((Sy, V) :: P) env (fx pynorm priv d fuel (Sy :: syms_of P) fr st l) (sxi d Sr fuel env ss l).
   Proof.
     induction fuel as [|f IH]; intros Sy V P fr st env ss l I He Pr.
     - cbn. reflexivity.
@@ -1959,13 +1803,16 @@ Section Sim.
     apply G; auto.
   Qed.
 
+  Definition srender_i (fuel : nat) (p : list stmt) : res observable :=
+    do (st, o) <- sxi d Sr fuel [0] (mkS [[]] []) p; Ok (o, sexported priv st).
+
   Theorem core_render_agree : forall fuel p,
-    core2_prog p = true -> okocc p -> incl (onames_l p) V0 -> Forall gok (frames_of oid p) ->
-    frender pynorm priv d fuel p = srender priv d fuel p.
+    core3_prog true p = true -> Sr = mk_frame [] [] p -> okocc p -> incl (onames_l p) V0 -> Forall gok (frames_of oid p) ->
+    frender pynorm priv d fuel p = srender_i fuel p.
   Proof.
-    intros fuel p Hc Ho HV Hg. unfold frender, frender_st, srender.
+    intros fuel p Hc HSr Ho HV Hg. unfold frender, frender_st, srender_i.
     change (frame_root (ord_id) p) with (frame_root oid p).
-    unfold frames_of in Hg. inversion Hg as [|? ? G1 G2]; subst.
+    revert HSr. unfold frames_of in Hg. inversion Hg as [|? ? G1 G2]; subst. intros HSr.
     rewrite frame_root_eq in *. rewrite (root_ps_nil p Ho) in *.
     assert (I0 : Inv [] f_init [] (mkS [] [])).
     { constructor; cbn; auto; try (intros i []). constructor. }
